@@ -4,5 +4,7 @@ CONSTANTS
   FormulaShadows = TRUE
   DipoleUnchecked = TRUE
   BuiltinClashCrashes = TRUE
+  LateBuiltinShadowed = TRUE
+  AddRawKey = FALSE
 INVARIANT NoDuplicateSurvives
 INVARIANT Terminates
